@@ -31,7 +31,13 @@ class U(object):
 STATE = {'groups': {}, 'roles': {}, 'labels': {}, 'form': 0}   # what the provider functions answer (inputs)
 
 def _form(names):
-    f = STATE['form']
+    return raw_form(names, STATE['form'])
+
+def specific_part(names): return [n for n in names if n != 'g2']          # what the getter registered for the user's class answers
+def extra_part(names): return [n for n in names if n in ('g2', 'zz')]      # what the getter registered for ALL users (cls=None) answers ('zz' twice)
+
+def raw_form(names, f):
+    """the value a getter returns: a list, a single name as str, None, a tuple or a set — has_perm must treat them alike"""
     names = sorted(names)
     if f == 1 and len(names) == 1: return names[0]            # a single name as a string
     if f == 2 and not names: return None
@@ -45,24 +51,36 @@ def register_providers(P):
     if _registered: return
     _registered.append(True)
     @user_groups_getter(U)
-    def u_groups(u): return _form(STATE['groups'].get(('U', u.uid), ()))
+    def u_groups(u): return _form(specific_part(STATE['groups'].get(('U', u.uid), ())))
     @user_roles_getter(U, None)
-    def u_roles(u, obj): return _form(STATE['roles'].get((('U', u.uid), okey(obj)), ()))
+    def u_roles(u, obj): return _form([r for r in STATE['roles'].get((('U', u.uid), okey(obj)), ()) if r != 'ra'])
     @obj_labels_getter()
     def o_labels(obj): return _form(STATE['labels'].get(okey(obj), ()))
 
 def register_string_user_providers():
     # long-lived hashable user keys (login names): the same key is used in every session of a thread
     @user_groups_getter(str)
-    def s_groups(login): return _form(STATE['groups'].get(('S', login), ()))
+    def s_groups(login): return _form(specific_part(STATE['groups'].get(('S', login), ())))
+    @user_groups_getter()
+    def any_groups(user):                     # registered last, for every kind of user
+        key = ('U', user.uid) if isinstance(user, U) else ('S', user) if isinstance(user, str) else ('P', user.id)
+        return _form(extra_part(STATE['groups'].get(key, ())))
     @user_roles_getter(str, None)
-    def s_roles(login, obj): return _form(STATE['roles'].get((('S', login), okey(obj)), ()))
+    def s_roles(login, obj): return _form([r for r in STATE['roles'].get((('S', login), okey(obj)), ()) if r != 'ra'])
+
+def ukey(user):
+    return ('U', user.uid) if isinstance(user, U) else ('S', user) if isinstance(user, str) else ('P', user.id)
+
+def register_class_filtered_role_provider(A):
+    # answers only for objects of class A (incl. subclass A2): the role 'ra'; the unfiltered getters never answer 'ra'
+    @user_roles_getter(None, A)
+    def a_roles(user, obj): return _form(['ra']) if 'ra' in STATE['roles'].get((ukey(user), okey(obj)), ()) else None
 
 def register_entity_user_providers(P):
     @user_groups_getter(P)
-    def p_groups(p): return _form(STATE['groups'].get(('P', p.id), ()))
+    def p_groups(p): return _form(specific_part(STATE['groups'].get(('P', p.id), ())))
     @user_roles_getter(P, None)
-    def p_roles(p, obj): return _form(STATE['roles'].get((('P', p.id), okey(obj)), ()))
+    def p_roles(p, obj): return _form([r for r in STATE['roles'].get((('P', p.id), okey(obj)), ()) if r != 'ra'])
 
 class World(object):
     pass
@@ -146,7 +164,7 @@ def gen_decl(w, rng, small=False):
     perms = rng.choice([['view'], ['view'], ['edit'], ['view', 'edit'], ['delete'], ['create', 'view']])
     if rng.random() < 0.04: perms = []      # perm() without a permission name: TypeError, nothing is registered
     groups = rng.choice([[], [], ['g1'], ['g2'], ['g1', 'g2']])
-    roles = rng.choice([[], [], [], ['r'], ['self']])
+    roles = rng.choice([[], [], [], ['r'], ['self'], ['ra'], ['r', 'ra']])
     labels = rng.choice([[], [], ['l']])
     ex_choices = [{'e': A}, {'e': A2}, {'e': B}, {'e': C}, {'a': w.aid[w.A.b]}, {'a': w.aid[w.B.as_]}, {'a': w.aid[w.A.n]},
                   {'a': w.aid[w.B.cs]}, {'a': w.aid[w.C.bs]}, {'a': w.aid[w.A.id]}, {'a': w.aid[w.A2.m]}, {'a': w.aid[w.B.k]}]
@@ -176,6 +194,7 @@ def gen_inputs(w, rng):
         if u is None: continue
         for o in w.objs:
             r = rng.choice([[], [], ['r'], ['r', 'q'], ['self'] if rng.random() < 0.2 else []])
+            if o[0] in (0, 1) and rng.random() < 0.4: r = r + ['ra']
             if r: roles[(u, o)] = r
     labels = {}
     for o in w.objs:
@@ -264,7 +283,9 @@ def real_to_json(w, u, data, include, with_schema):
             objs = [load(w, o) for o in data]
             payload = {'items': objs[:1], 'rest': [objs[1:]]} if len(objs) > 1 else objs
             try:
-                txt = w.db.to_json(payload, include=include, with_schema=with_schema)
+                if len(objs) == 1 and len(include) % 2 == 1: txt = objs[0].to_json(include, (), None, with_schema)     # Entity.to_json
+                elif len(objs) == 1 and len(include) == 2: txt = w.ents[data[0][0] if data[0][0] != 1 else 0].select(lambda q: q.id == data[0][1]).to_json(include, with_schema=with_schema)
+                else: txt = w.db.to_json(payload, include=include, with_schema=with_schema)
             except core.PermissionError:
                 return {'error': 'PermissionError'}, None, None
             doc = json.loads(txt)
@@ -285,6 +306,8 @@ def real_to_json(w, u, data, include, with_schema):
                         a = e._adict_[ad['name']]
                         schema['attrs'].append(w.aid[a])
                         if not can_view(uu, a): schema['bad'].append('%s.%s' % (ed['name'], ad['name']))
+                        elif a.reverse and not (can_view(uu, a.reverse.entity) and can_view(uu, a.reverse)):
+                            schema['bad'].append('%s.%s (its reverse side %s is not viewable)' % (ed['name'], ad['name'], a.reverse))
                 schema['entities'].sort(); schema['attrs'].sort()
             return {'ok': sorted(got)}, viewable, schema
         finally:
@@ -333,12 +356,21 @@ def spec(w, decls, inputs, u, p, t, reasons=None):
 
 # ---------------------------------------------------------------------------------------------------- one case
 
-def world_request(w, decls, inputs, calls, tojson, schema):
+def json_answer(a):
+    return a if a is None or isinstance(a, str) else sorted(a)
+
+def world_request(w, decls, inputs, calls, tojson, schema, form=None):
     groups, roles, labels = inputs
     users = []
     for u in USERS + SUSERS:
         if u is None: continue
-        users.append({'id': user_json(u), 'groups': list(groups.get(u, [])), 'obj': [4, u[1]] if u[0] == 'P' else None})
+        d = {'id': user_json(u), 'groups': list(groups.get(u, [])), 'obj': [4, u[1]] if u[0] == 'P' else None}
+        if form is not None:
+            # the raw answers of the four registered group getters, in registration order: (U), (P), (str), (None = everybody)
+            names = groups.get(u, [])
+            d['getters'] = [{'applies': u[0] == k, 'answer': json_answer(raw_form(specific_part(names), form)) if u[0] == k else None} for k in ('U', 'P', 'S')]
+            d['getters'].append({'applies': True, 'answer': json_answer(raw_form(extra_part(names), form))})
+        users.append(d)
     return {'op': 'world',
             'sub': [[e, s] for e, s in w.sub.items()],
             'attrs': [attr_json(w, a) for a in w.attrs],
@@ -382,7 +414,7 @@ def run_case(ctx, w, decls, inputs, form, rng, full_cold, order_check, kind):
     tj_req, tj_real = [], []
     def viewable(u, o):
         return spec(w, decls, inputs, u, 'view', {'o': list(o)}) or spec(w, decls, inputs, u, 'edit', {'o': list(o)})
-    for _ in range(3):
+    for tj_i in range(3):
         u = rng.choice(USERS)
         data = rng.sample(w.objs, rng.choice([1, 1, 2, 3]))
         if rng.random() < 0.75:
@@ -399,7 +431,7 @@ def run_case(ctx, w, decls, inputs, form, rng, full_cold, order_check, kind):
                 if a in include:
                     for o, l in w.graph[a].items():
                         if w.ents[o[0]] is e: related[o].extend(l)
-        with_schema = rng.random() < 0.5
+        with_schema = tj_i == 0 or rng.random() < 0.5
         tj_req.append({'user': user_json(u), 'data': [list(o) for o in data], 'fuel': 40,
                        'related': [[list(o), [list(i) for i in l]] for o, l in related.items()]})
         tj_real.append((u, data, include, real_to_json(w, u, data, include, with_schema)))
@@ -413,9 +445,9 @@ def run_case(ctx, w, decls, inputs, form, rng, full_cold, order_check, kind):
         reset_rules(w); declare(w, d2)
         perm_answers = real_warm(w, calls)
         reset_rules(w); declare(w, decls)
-    req = world_request(w, decls, inputs, seq, tj_req, schema_req)
-    req2 = world_request(w, decls, inputs, cold_calls, [], [])
-    req3 = world_request(w, decls, inputs, [(u, 'view', t) for u, t in pairs], [], [])
+    req = world_request(w, decls, inputs, seq, tj_req, schema_req, form)
+    req2 = world_request(w, decls, inputs, cold_calls, [], [], form)
+    req3 = world_request(w, decls, inputs, [(u, 'view', t) for u, t in pairs], [], [], form)
     return {'decls': decls, 'inputs': inputs, 'form': form, 'declared': declared, 'seq': seq, 'warm': warm, 'calls': calls,
             'cold_calls': cold_calls, 'cold': cold, 'pairs': pairs, 'cans': cans, 'tj': tj_real, 'schema_real': schema_real,
             'perm_answers': perm_answers, 'reqs': [req, req2, req3], 'kind': kind}
@@ -581,6 +613,7 @@ def gen_session(w, rng, targets):
     for u in SUSERS:
         for o in w.objs:
             r = rng.choice([[], [], ['r'], ['r', 'q']])
+            if o[0] in (0, 1) and rng.random() < 0.4: r = r + ['ra']
             if r: roles[(u, o)] = r
     labels = {o: ['l'] for o in w.objs if rng.random() < 0.5}
     users = SUSERS + [None]
@@ -631,7 +664,7 @@ def part_threads(ctx, w, rng):
         reset_rules(w); declare(w, decls)
         real = real_thread(w, sessions)
         hists.append((decls, sessions, real))
-        reqs.append({'op': 'thread', 'sessions': [dict(world_request(w, decls, sn['inputs'], sn['calls'], [], []),
+        reqs.append({'op': 'thread', 'sessions': [dict(world_request(w, decls, sn['inputs'], sn['calls'], [], [], sn['form']),
                                                        exit='commit' if sn['exit'] == 'allowed' else sn['exit']) for sn in sessions]})
     outs = ctx.driver('C34', reqs) if ctx.driver.ok else [None] * len(reqs)
     for (decls, sessions, real), out in zip(hists, outs):
@@ -664,6 +697,17 @@ def part_threads(ctx, w, rng):
 def report_stale(ctx, w, decls, sessions, i, call, observed, expected, hinp):
     """an answer of session i does not follow the memberships of session i: find the shortest history that shows it"""
     u, p, t = call
+    if p != 'to_json':
+        # does the session fail on its own (nothing to do with earlier sessions)?  then it is a plain disagreement with the rules
+        reset_rules(w); declare(w, decls)
+        alone = real_thread(w, [dict(sessions[i], calls=[call], exit='commit', tojson=None)])[0][0][0]
+        if alone != spec(w, decls, sessions[i]['inputs'], u, p, t):
+            d2, i2 = shrink(w, decls, sessions[i]['inputs'], sessions[i]['form'], u, p, t)
+            ctx.violation('has_perm(%r, %r, %s) is %r but the declared rules %s it' % (u, p, describe(w, t), alone, 'do not grant' if alone else 'grant'),
+                          {'decls': [describe_decl(w, d) for d in d2], 'inputs': jsonable_inputs(i2), 'form': sessions[i]['form'], 'user': repr(u), 'perm': p, 'x': describe(w, t)},
+                          observed=alone, expected=not alone, key='spec:%s' % json.dumps([[describe_decl(w, d) for d in d2], repr(u), p, describe(w, t), jsonable_inputs(i2)]))
+            reset_rules(w); declare(w, decls)
+            return
     def one(sn, exit_kind):
         c = [(u, 'view' if p == 'to_json' else p, t)]
         return dict(sn, calls=c, exit=exit_kind, tojson=(u, tuple(t['o'])) if p == 'to_json' else None)
@@ -699,7 +743,7 @@ def report_stale(ctx, w, decls, sessions, i, call, observed, expected, hinp):
                 reset_rules(w); declare(w, decls)
                 return
     reset_rules(w); declare(w, decls)
-    ctx.violation('an answer in a later db_session does not follow the memberships of that session', dict(hinp, session=i, call=[repr(u), p, describe(w, t)]),
+    ctx.violation('an answer in a db_session of a longer history does not follow the declared rules for the memberships of that session', dict(hinp, session=i, call=[repr(u), p, describe(w, t)]),
                   observed=observed, expected=expected, key='stale-membership:%s' % json.dumps([hinp['decls'], i, repr(u), p, describe(w, t)]))
 
 def real_thread_end(kind):
@@ -733,7 +777,7 @@ def run(ctx):
     global W
     if W is None:
         W = build_world()
-        register_providers(W.P); register_entity_user_providers(W.P); register_string_user_providers()
+        register_providers(W.P); register_entity_user_providers(W.P); register_string_user_providers(); register_class_filtered_role_provider(W.A)
     w = W
     rng = ctx.rng
     witness(ctx, w)
@@ -748,6 +792,17 @@ def run(ctx):
     if not ctx.thorough: singles = rng.sample(singles, 40)
     for d in singles:
         cases.append(run_case(ctx, w, [d], gen_inputs(w, rng), rng.randrange(5), rng, full_cold=False, order_check=False, kind='single-rule'))
+    A_, B_, C_ = w.eid[w.A], w.eid[w.B], w.eid[w.C]
+    def rule(ents, perms, excl=(), groups=()): return {'ents': ents, 'perms': perms, 'groups': list(groups), 'roles': [], 'labels': [], 'excl': list(excl)}
+    fixed_sets = [
+        # A.b viewable, B viewable (through 'edit'), but B.as_ excluded: the schema must not list A.b
+        [rule([A_], ['view']), rule([B_], ['edit'], [{'a': w.aid[w.B.as_]}])],
+        [rule([B_], ['view']), rule([A_], ['edit'], [{'a': w.aid[w.A.b]}])],
+        [rule([B_, C_], ['view'], [{'a': w.aid[w.C.bs]}]), rule([C_], ['edit'], [{'a': w.aid[w.C.bs]}])],
+        [rule([A_, B_], ['view']), rule([B_], ['view'], [{'e': A_}])],
+    ]
+    for decls in fixed_sets:
+        cases.append(run_case(ctx, w, decls, gen_inputs(w, rng), rng.randrange(5), rng, full_cold=False, order_check=True, kind='fixed-rules'))
     n = ctx.scale(60, 1500)
     for i in range(n):
         k = rng.choice([0, 1, 2, 2, 3, 3]) if i else 0
